@@ -194,9 +194,15 @@ def fit_pcovr(j, label, X, Y, reg, regressor_obj=None, past=None, **kw):
     a fit on other data (then overwritten in place with the real data), as a caller re-using objects would."""
     from skmatter.decomposition import PCovR
 
+    from . import forms
+
     Yfit, extra = fit_args(reg, X, Y)
     robj = regressor_obj if regressor_obj is not None else make_regressor(reg)
-    est = PCovR(regressor=robj, **kw)
+    route = next(j.routes) if getattr(j, "routes", None) is not None else {}
+    how = route.get("how", "ctor")
+    est = forms.configure(PCovR, dict(kw, regressor=robj), how)
+    if how != "ctor":
+        j.note("configured_not_by_constructor")
     if past is not None:
         Xbuf = np.array(past.normal(size=X.shape) * max(float(np.abs(X).std()), 1e-300), order="C")
         Xbuf -= Xbuf.mean(axis=0)
@@ -213,8 +219,32 @@ def fit_pcovr(j, label, X, Y, reg, regressor_obj=None, past=None, **kw):
         j.note("estimators_with_a_past")
         j.lib(f"fit:{label}", est.fit, Xbuf, Ybuf, **extra)
         return est
-    j.lib(f"fit:{label}", est.fit, X, Yfit, **extra)
+    Xin, Yin = forms.present(X, route.get("xform", "C")), forms.present(Yfit, route.get("yform", "C"))
+    if route.get("xform", "C") != "C":
+        j.note("non_default_containers")
+    if route.get("via") == "fit_transform":
+        # the other public way to the training projections
+        T = np.asarray(j.lib(f"fit_transform:{label}", est.fit_transform, Xin, Yin, **extra))
+        T2 = np.asarray(est.transform(X))
+        j.close("fit_transform(X, y) == transform(X) of the estimator it fitted", T, T2, 1e-9 * max(float(np.abs(T2).max()), 1e-300), {"space": getattr(est, "space_", None)})
+        j.note("fits_through_fit_transform")
+        return est
+    j.lib(f"fit:{label}", est.fit, Xin, Yin, **extra)
     return est
+
+
+def routes(rng, n=8):
+    """Public routes to the same fitted model, drawn per fit: how the estimator is configured, which entry point fits
+    it, which containers carry the numbers."""
+    from . import forms
+
+    return [{"how": gens.pick(rng, forms.CONFIGURE), "via": gens.pick(rng, ("fit", "fit", "fit_transform")), "xform": gens.pick(rng, forms.PRESENT), "yform": gens.pick(rng, forms.PRESENT)} for _ in range(n)]
+
+
+def use_routes(j, case):
+    import itertools
+
+    j.routes = itertools.cycle(case["routes"]) if case.get("routes") else None
 
 
 def col2(Y, n):
